@@ -16,6 +16,7 @@
 using vc::g_stats;
 static vc::Args A;
 
+static std::pair<size_t, size_t> g_early{0, 0}; // see check()
 struct Exp { std::string tag, req_body, res_body; long req_msg, res_msg; bool res_close; };
 static long wire_len(const hg::Msg &m) {
     if (m.framing != hg::F_CHUNKED) return (long)m.body.size();
@@ -25,19 +26,23 @@ static long wire_len(const hg::Msg &m) {
 
 static std::string case_text(int pers, const std::string &rq, const std::string &rs, const std::vector<Exp> &e, const std::vector<size_t> &qc, const std::vector<size_t> &sc) {
     auto H = [](const std::string &s) { return s.empty() ? std::string("-") : vc::hex(s); };
-    std::string s = "c06 " + std::to_string(pers) + "\nreq " + H(rq) + "\nres " + H(rs) + "\n";
+    std::string s = "c06 " + std::to_string(pers) + "\nearly " + std::to_string(g_early.first) + " " + std::to_string(g_early.second) + "\nreq " + H(rq) + "\nres " + H(rs) + "\n";
     for (auto &x : e) s += "exp " + x.tag + " " + H(x.req_body) + " " + H(x.res_body) + " " + std::to_string(x.req_msg) + " " + std::to_string(x.res_msg) + " " + std::to_string(x.res_close) + "\n";
     s += "reqcuts"; for (size_t c : qc) s += " " + std::to_string(c); s += "\nrescuts"; for (size_t c : sc) s += " " + std::to_string(c);
     s += "\n# req \"" + vc::esc(rq, 800) + "\"\n# res \"" + vc::esc(rs, 800) + "\"\n";
     return s;
 }
 
+// early = (q, s): an early answer - the request stream is offered up to byte q (inside a request body), then the response stream up to
+// byte s (the end of the answer to that request), then the rest of both; (0, 0) = all requests first
 static std::pair<std::string, std::string> check(int pers, const std::string &rq, const std::string &rs, const std::vector<Exp> &exp, const std::vector<size_t> &qc, const std::vector<size_t> &sc) {
     vdrv::Config c; c.personality = pers; vdrv::Plan p; vdrv::Options o; o.dump = true;
     vdrv::Session ss(c, p, o);
     vdrv::HandOver ho;
-    for (auto &ch : vdrv::cut_at(rq, qc)) if (!ch.empty()) ho.apply(ss, vdrv::Op::req(ch));
-    for (auto &ch : vdrv::cut_at(rs, sc)) if (!ch.empty()) ho.apply(ss, vdrv::Op::res(ch));
+    size_t eq = g_early.first, es = g_early.second; if (eq > rq.size() || es > rs.size()) eq = es = 0;
+    auto feed = [&](const std::string &w, const std::vector<size_t> &cuts, size_t from, size_t to, bool req) { std::vector<size_t> cc; for (size_t x : cuts) if (x > from && x < to) cc.push_back(x - from); for (auto &ch : vdrv::cut_at(w.substr(from, to - from), cc)) if (!ch.empty()) ho.apply(ss, req ? vdrv::Op::req(ch) : vdrv::Op::res(ch)); };
+    if (eq) { feed(rq, qc, 0, eq, true); feed(rs, sc, 0, es, false); feed(rq, qc, eq, rq.size(), true); feed(rs, sc, es, rs.size(), false); }
+    else { feed(rq, qc, 0, rq.size(), true); feed(rs, sc, 0, rs.size(), false); }
     ss.close();
     vdrv::Result &r = ss.finish();
     std::string site; for (int t : {1, 5, 6, 7}) if (r.trace_hits.count(t)) site += "+T" + std::to_string(t);
@@ -68,7 +73,16 @@ static void campaign() {
         // make bodies more likely and more hostile: HTTP look-alikes exactly at the end of the declared length
         int pers = rcx::range(0, 9);
         std::vector<Exp> exp; { size_t pair = 0; std::vector<const hg::Msg *> fin; for (auto &m : x.res) if (!m.interim) fin.push_back(&m); for (auto &q : x.req) { const hg::Msg &s = *fin[pair]; exp.push_back({q.tag, q.body, s.body, wire_len(q), wire_len(s), s.framing == hg::F_CLOSE}); pair++; } }
+        // early answer: a final 4xx to a request that announced "Expect: 100-continue", arriving while the body is on its way
+        // (at least one body byte already offered: the client did not withhold the body). The body must still be delivered whole.
+        g_early = {0, 0}; int early_pair = -1;
+        { std::vector<size_t> fin; for (size_t k = 0; k < x.res.size(); k++) if (!x.res[k].interim) fin.push_back(k);
+          for (size_t j = 0; j < x.req.size() && j < fin.size(); j++) { hg::Msg &q = x.req[j]; if (q.framing != hg::F_CL || q.body.size() < 2 || !rcx::chance(1, 3)) continue;
+            if (!q.find("Expect")) { hg::Hdr h; h.name = "Expect"; h.lines.push_back(" 100-continue"); q.headers.push_back(h); }
+            static const char *ST[] = {"400", "401", "403", "404", "417"}; hg::Msg &fr = x.res[fin[j]]; if (fr.framing == hg::F_NONE || fr.framing == hg::F_CLOSE) break; fr.status = ST[rcx::range(0, 4)]; early_pair = (int)j; break; } }
         std::string rq = x.req_wire(), rs = x.res_wire();
+        if (early_pair >= 0) { auto qs = hg::Exchange::spans(x.req); size_t he = qs[(size_t)early_pair].head_end, en = qs[(size_t)early_pair].end; size_t q = he + (size_t)rcx::range(1, (int)(en - he) - 1);
+            size_t sacc = 0, pair = 0, send = 0; for (auto &m : x.res) { sacc += m.wire().size(); if (!m.interim) { if ((int)pair == early_pair) { send = sacc; break; } pair++; } } g_early = {q, send}; }
         bool counting = !rcx::shrinking();
         bool hostile = false; for (auto &e : exp) for (const std::string *b : {&e.req_body, &e.res_body}) if (b->find_first_of(std::string("\r\n\0", 3)) != std::string::npos || b->find("HTTP/") != std::string::npos) hostile = true;
         auto one = [&](const std::vector<size_t> &qc, const std::vector<size_t> &sc) -> std::optional<rcx::Fail> {
@@ -83,7 +97,7 @@ static void campaign() {
         for (size_t c = 1; c < rs.size() && rs.size() <= 500; c++) { if (auto f = one({}, {c})) return f; if (counting && hostile) g_stats.nt(vc::fnv1a(rs, c + 77777)); }
         { std::vector<size_t> qa, sa; for (size_t c = 1; c < rq.size() && c < 3000; c++) qa.push_back(c); for (size_t c = 1; c < rs.size() && c < 3000; c++) sa.push_back(c); if (auto f = one(qa, sa)) return f; }
         for (int k = 0; k < 6; k++) { std::vector<size_t> qc, sc; int n1 = rcx::range(0, 6), n2 = rcx::range(0, 6); for (int i = 0; i < n1 && rq.size() > 1; i++) qc.push_back((size_t)rcx::range(1, (int)rq.size() - 1)); for (int i = 0; i < n2 && rs.size() > 1; i++) sc.push_back((size_t)rcx::range(1, (int)rs.size() - 1)); std::sort(qc.begin(), qc.end()); std::sort(sc.begin(), sc.end()); if (auto f = one(qc, sc)) return f; }
-        if (counting) { g_stats.cls("exchanges"); if (hostile) g_stats.cls("exchanges_with_hostile_body"); for (auto &m : x.req) if (m.framing == hg::F_CHUNKED) g_stats.cls("chunked_bodies"); for (auto &m : x.res) { if (m.framing == hg::F_CHUNKED) g_stats.cls("chunked_bodies"); if (m.framing == hg::F_CLOSE) g_stats.cls("close_delimited_bodies"); } g_stats.sample_sparse(case_text(pers, rq, rs, exp, {}, {}), g_stats.evaluations); }
+        if (counting) { g_stats.cls("exchanges"); if (hostile) g_stats.cls("exchanges_with_hostile_body"); if (g_early.first) g_stats.cls("early_4xx_answer_to_expect_100_continue_inside_body"); for (auto &m : x.req) if (m.framing == hg::F_CHUNKED) g_stats.cls("chunked_bodies"); for (auto &m : x.res) { if (m.framing == hg::F_CHUNKED) g_stats.cls("chunked_bodies"); if (m.framing == hg::F_CLOSE) g_stats.cls("close_delimited_bodies"); } g_stats.sample_sparse(case_text(pers, rq, rs, exp, {}, {}), g_stats.evaluations); }
         return {};
     });
 }
@@ -95,7 +109,8 @@ static int replay(const std::string &path) {
         size_t e = f.find('\n', p); if (e == std::string::npos) e = f.size(); std::string l = f.substr(p, e - p); p = e + 1;
         std::vector<std::string> t; { size_t q = 0; while (q < l.size()) { while (q < l.size() && l[q] == ' ') q++; size_t z = l.find(' ', q); if (z == std::string::npos) z = l.size(); if (z > q) t.push_back(l.substr(q, z - q)); q = z; } }
         if (t.empty() || t[0][0] == '#') continue;
-        if (t[0] == "c06" && t.size() > 1) pers = atoi(t[1].c_str()); else if (t[0] == "req" && t.size() > 1) rq = U(t[1]); else if (t[0] == "res" && t.size() > 1) rs = U(t[1]);
+        if (t[0] == "early" && t.size() > 2) g_early = {(size_t)atol(t[1].c_str()), (size_t)atol(t[2].c_str())};
+        else if (t[0] == "c06" && t.size() > 1) pers = atoi(t[1].c_str()); else if (t[0] == "req" && t.size() > 1) rq = U(t[1]); else if (t[0] == "res" && t.size() > 1) rs = U(t[1]);
         else if (t[0] == "exp" && t.size() >= 7) exp.push_back({t[1], U(t[2]), U(t[3]), atol(t[4].c_str()), atol(t[5].c_str()), atoi(t[6].c_str()) != 0});
         else if (t[0] == "reqcuts") for (size_t i = 1; i < t.size(); i++) qc.push_back(atol(t[i].c_str())); else if (t[0] == "rescuts") for (size_t i = 1; i < t.size(); i++) sc.push_back(atol(t[i].c_str()));
     }
